@@ -802,8 +802,12 @@ func (ch *Channel) connectionCloseStateChange(c *Connection) {
 	if updateTo > 0 {
 		ch.mutable.Lock()
 		// Recheck the state as it's possible another goroutine changed the state
-		// from what we expected, and so we might make a stale change.
-		if ch.mutable.state == chState {
+		// from what we expected, and so we might make a stale change. The state
+		// only moves forward, so the update applies whenever it advances the
+		// current state: requiring the state to still equal chState would lose
+		// the final transition to ChannelClosed when another goroutine moved the
+		// channel to ChannelInboundClosed in the meantime.
+		if ch.mutable.state < updateTo {
 			ch.mutable.state = updateTo
 			updatedToState = updateTo
 		}
